@@ -35,7 +35,9 @@ type ACLCase struct {
 
 var c01Names = []string{"a", "b", "dev/a", "dev/b", "prod/a", "a*", "a\nb", "_internal/x", "", "a", "dev/a", "a ", " dev/a", "_internal", "prod/b|a", "b|a",
 	// spellings that a path cleaner would map onto another secret's name: names are opaque strings
-	"dev/../prod/a", "dev/a/", "dev//a", "./a", "dev/./a", "prod/a/.."}
+	"dev/../prod/a", "dev/a/", "dev//a", "./a", "dev/./a", "prod/a/..",
+	// spellings that differ from another secret's name in letter case only
+	"A", "Dev/a", "PROD/A", "DEV/B"}
 var c01Patterns = []string{"*", "dev/*", "*a", "d*/a", "**", "", "a*", "*/*", "prod/*", "_internal/*", "a\n*", "b",
 	// literal text on both sides of a '*' whose pieces would overlap in an existing name
 	"a*a", "prod/*/a", "dev/*/a", "dev/a*a", "b*b",
@@ -44,11 +46,19 @@ var c01Patterns = []string{"*", "dev/*", "*a", "d*/a", "**", "", "a*", "*/*", "p
 var c01Actions = []string{"get", "info", "put", "activate", "delete", "get", "info", "list", "Get", "*"}
 var c01Kinds = []string{"put", "activate", "delver", "del", "get", "getver", "cond", "info", "list", "get", "info"}
 
+// A long-lived server evaluates many DIFFERENT patterns in one process (every node's grants): a family
+// of numbered patterns, each allowing one of the ordinary names by a route of its own, makes the set of
+// distinct patterns evaluated by one test process run into the hundreds.
+func genFamilyPattern(rt *rapid.T) string {
+	k := rapid.IntRange(0, 1499).Draw(rt, "family-k")
+	return fmt.Sprintf(rapid.SampledFrom([]string{"team%04d/*", "*%04d", "dev/a*%04d*", "dev/*", "*a", "prod/*"}).Draw(rt, "family-shape"), k)
+}
+
 func genRuleSet(rt *rapid.T) []model.Rule {
 	return rapid.SliceOfN(rapid.Custom(func(rt *rapid.T) model.Rule {
 		return model.Rule{
 			Action: rapid.SliceOfN(rapid.SampledFrom(c01Actions), 0, 4).Draw(rt, "actions"),
-			Secret: rapid.SliceOfN(rapid.OneOf(rapid.SampledFrom(c01Patterns), rapid.SampledFrom(c01Names)), 1, 3).Draw(rt, "patterns"),
+			Secret: rapid.SliceOfN(rapid.OneOf(rapid.SampledFrom(c01Patterns), rapid.SampledFrom(c01Patterns), rapid.SampledFrom(c01Names), rapid.SampledFrom(c01Names), rapid.Custom(genFamilyPattern)), 1, 3).Draw(rt, "patterns"),
 		}
 	}), 0, 3).Draw(rt, "rules")
 }
